@@ -34,6 +34,13 @@ def run(ck):
     ck.clause("C10.3", "id filters wired to the right file and column; filter precedes grouping")
     ck.clause("C10.4", "label rows are sorted and molecules grouped by id while reading; result rows are grouped by id after sorting by it")
     ck.clause("C10.5", "no single-use iterator is consumed more than once (a second reader sees what other molecules left)")
+    if ck.wants("C10.14"):
+        lists_not_changed_while_iterated(ck, "C10.14")
+    if ck.wants("C10.15"):
+        from .c02 import records_frozen as _rf10
+        _rf10(ck, "C10.15", clause="a record's identity is not rewritten after the record was built (as C02.11): an id mapped back by "
+                                   "arithmetic (`row.queryId %= ...`) lands on another molecule of the file whenever two ids agree after "
+                                   "the mapping - what is written for a molecule then depends on which other molecules the file holds")
     persistent_state(ck, "C10.1")
     shared_inputs(ck, "C10.1")
     module_state(ck)
@@ -117,6 +124,51 @@ def _empty_fast_path_is_equivalent(ck, fn, node, subject) -> bool:
         return False
     general = {summary(pa, True) for pa in general_side}
     return all(summary(pa, False) in general for pa in empty_side)
+
+
+def lists_not_changed_while_iterated(ck, rule):
+    """`for x in xs: ... xs.remove(x)`: the list iterator keeps an index - after a removal the element that moved into the freed
+    slot is skipped. Over a list that holds the items of ALL molecules (the flattened fragments, the rows of a pass), whether a
+    molecule's item is examined then depends on its neighbour in the list - on the other molecules of the file."""
+    from ..rules.common import run_reach
+    ck.clause(rule, "no list is shortened or grown inside a `for` loop over that same list: the iterator skips the element behind every "
+                    "removal, so what happens to one molecule's item depends on the item in front of it (another molecule's)")
+    n = 0
+    hit = False
+    for f in run_reach(ck.ctx):
+        if f.is_lambda:
+            continue
+        for lp in [x for x in ast.walk(f.node) if isinstance(x, ast.For)]:
+            n += 1
+            it = lp.iter
+            if not isinstance(it, (ast.Name, ast.Attribute)):
+                continue
+            key = ast.unparse(it)
+            for x in [y for st in lp.body for y in ast.walk(st)]:
+                if isinstance(x, ast.Call) and isinstance(x.func, ast.Attribute) and ast.unparse(x.func.value) == key \
+                        and x.func.attr in ("remove", "pop", "insert", "clear"):
+                    # leaving the loop right after the change is the one safe use
+                    blk = next((b for b in ast.walk(lp) if hasattr(b, "body") and isinstance(getattr(b, "body"), list) and any(
+                        isinstance(s0, ast.Expr) and s0.value is x for s0 in b.body)), None)
+                    after = []
+                    if blk is not None:
+                        idx = next(i for i, s0 in enumerate(blk.body) if isinstance(s0, ast.Expr) and s0.value is x)
+                        after = blk.body[idx + 1:]
+                    if after and isinstance(after[0], (ast.Break, ast.Return)):
+                        continue
+                    hit = True
+                    ck.violation(rule, f"{short(f)}:{key}.{x.func.attr}", where(f, x),
+                                 f"`{key}` is changed by .{x.func.attr}() inside the loop that iterates over it: the element behind every "
+                                 "removal is never visited",
+                                 found=f"for {ast.unparse(lp.target)} in {key}: ... {ast.unparse(x)[:80]}",
+                                 required=f"a new list ([x for x in {key} if ...]) or a loop over a copy")
+                if isinstance(x, ast.Delete) and any(isinstance(t, ast.Subscript) and ast.unparse(t.value) == key for t in x.targets):
+                    hit = True
+                    ck.violation(rule, f"{short(f)}:{key}.del", where(f, x), f"an element of `{key}` is deleted inside the loop over it",
+                                 found=ast.unparse(x)[:80], required="a new list")
+    ck.floor(rule + " for loops scanned on the run path", n, 12)
+    if not hit:
+        ck.ok(rule, "run path", "src/", f"{n} loops: none changes the list it iterates over")
 
 
 def run_global_conditions(ck):
@@ -386,6 +438,8 @@ def _is_direct_selection(t0, source):
             inner = inner[2][0]
         return inner[0] in ("comp", "call") and T.contains(inner, source) and \
             (inner[0] != "comp" or any(it == source for it, _ in inner[3]))
+    if t0[0] == "idx" and t0[1] == source:
+        return True                       # the map at a position of the list, however the position is computed (`maps[id - 1]`)
     if t0[0] == "idx" and t0[2][0] == "c":
         if t0[1] == source:
             return True
@@ -671,6 +725,20 @@ def id_filters(ck, rule_filter, rule_order):
                 if x[0] == "mcall" and x[2] == "groupby":
                     grouped = (x, node)
         if grouped is None:
+            # positively recognised: a path that hands the (filtered) rows to the per-molecule parser as they are - no grouping,
+            # no sorting by id, and no removal of the None the parser answers for a molecule without labels
+            parse0 = cmap_reader_methods(ck)[1]
+            v0 = pa.value if pa.outcome == "return" else None
+            lists0 = [y for y in T.subterms(v0) if y[0] == "list"] if v0 is not None else []
+            direct = parse0 is not None and any(
+                el[0] == "app" and el[1] == parse0.qualname for y in lists0 for el in y[1])
+            if direct:
+                ck.violation(rule_filter, "CmapReader.__read:ungrouped-path", where(read, pa.node),
+                             "on this path the rows are handed to the per-molecule parser without grouping and its answer is returned as "
+                             "it is: a molecule without labels comes back as [None] (the general path removes it), and the caller's "
+                             "`[0]` / `.trim()` fails on it",
+                             found=T.show(v0)[:160], required="the grouped, not-null-filtered result on every path")
+                continue
             raise AnalysisError(f"{read.where}: groupby of the CMAP rows not found")
         gb, gnode = grouped
         gcol = gb[3][0] if gb[3] else None
